@@ -8,13 +8,11 @@ CONSTANTS
   MemoCap = 4
   MaxFeat = 3
   MaxSorts = 2
-  MaxQueries = 2
-  BetweenOn = TRUE
-  AnnotLevel = 1
-  UnsortedQueries = TRUE
+  MaxQueries = 0
+  BetweenOn = FALSE
+  AnnotLevel = 0
+  UnsortedQueries = FALSE
   TrackHist = FALSE
   Variant = "impl"
-INVARIANT Inv_C16_At
-INVARIANT Inv_C16_Between
-INVARIANT Inv_C16_Annotate
+INVARIANT Inv_D_IndexFresh
 CHECK_DEADLOCK FALSE
